@@ -46,7 +46,7 @@ CHECKS = {
     "C12": ("exploration", "differential property-based testing (Hypothesis) against pytz; enumerated same-name and own-abbreviation pair stages; child interpreters for the process-local zone; thorough adds an exhaustive 60x60 zone-pair grid",
             "Ordered zone pairs x unambiguous local datetimes (DST-adjacent over-weighted) x 4 parser kinds x 3 awareness settings x optional own zone, compared with A.localize(d).astimezone(B); TIMEZONE='local' cases are run in subprocesses under 5 TZ values.",
             "pytz is the reference; dual pytz/table names excluded; zero-delta relative phrases.", "DESIGN.md §4 C12"),
-    "C13": ("exploration", "compositional/metamorphic property-based testing (Hypothesis): multi-language result vs first successful single-language result; autodetect re-parse; locale vs language+region; convenience function vs class; enumerated corpus walk",
+    "C13": ("exploration", "compositional/metamorphic property-based testing (Hypothesis): multi-language result vs first successful single-language result; autodetect re-parse; locale vs language+region; convenience function vs class for every argument combination; enumerated corpus walk",
             "Four experiments over the corpus: multi == first non-None single in priority/given order with locale membership and DEFAULT_LANGUAGES neutrality; autodetect reproducibility; locales=[loc] == languages+region with loc's own date order; languages + partly invalid region against per-language locales with loader caches reset.",
             "Frozen clock, default settings; fallback to the plain language when lang-REGION is not listed.", "DESIGN.md §4 C13"),
     "C14": ("exploration", "round-trip property-based testing (Hypothesis) over generated strptime formats + exhaustive walk of localised month/weekday names",
